@@ -49,6 +49,11 @@ def main():
                 o = sh('cd %s && RBP_REPO=%s ./check %s --tier quick' % (V, REPO, c))
                 res[c] = {0: 'held', 1: 'VIOLATION', 2: 'tool-error'}.get(o.returncode, str(o.returncode)) + ' %.0fs' % (time.time() - t0)
             rows.append((i, 'tests pass' if tests_ok else 'TESTS FAIL: ' + t.stdout.strip(), res))
+            print('%-45s %-12s %s' % rows[-1], flush=True)
+            out = os.path.join(V, 'seeded', 'RESULTS.json')
+            prev = json.load(open(out)) if os.path.exists(out) else {}
+            prev[i] = {'tests': rows[-1][1], 'checks': res}
+            json.dump(prev, open(out, 'w'), indent=1, sort_keys=True)
         finally:
             sh('git -C %s checkout -- .' % REPO)
     # rebuild the unmodified tree so that later checks start from a clean binary
